@@ -249,6 +249,12 @@ class QueryHandler:
         type_: _int,
     ) -> None:
         """Answer A/AAAA/ANY question."""
+        # The services share the host name that was asked for: an address type
+        # exists when any of them has an address of it, whichever service it is
+        host_types: Set[int] = set()
+        for service in services:
+            for dns_address in service._dns_addresses(None, _IPVersion_ALL):
+                host_types.add(dns_address.type)
         for service in services:
             answers: List[DNSAddress] = []
             additionals: Set[DNSRecord] = set()
@@ -266,7 +272,9 @@ class QueryHandler:
                     additionals.add(service._dns_nsec(list(missing_types), None))
                 for answer in answers:
                     answer_set[answer] = additionals
-            elif type_ in missing_types:
+            elif type_ in missing_types and type_ not in host_types:
+                # (never next to an address of that type from another service
+                # of the host: the reply would give the address and deny it)
                 assert service.server is not None, "Service server must be set for NSEC record."
                 answer_set[service._dns_nsec(list(missing_types), None)] = set()
 
